@@ -76,6 +76,16 @@ def short(path):
     return path
 
 
+def short_name(full):
+    """path without generic arguments"""
+    import re as _re
+    prev = None
+    while prev != full:
+        prev = full
+        full = _re.sub(r"::<[^<>]*>", "", full)
+    return full
+
+
 class Interp:
     def __init__(self, facts, opaque=None, max_depth=6, loop_bound=2, max_paths=4000, models=None, record_local_calls=True):
         self.f = facts
@@ -807,6 +817,16 @@ class Interp:
             dst = self.f.ty_s(fn["args"][0])
             if src == dst:
                 return [(st, args[0])]
+            # `BTreeMap::from([(k1, v1), ...])` is the empty map with the pairs inserted in order (std: later duplicates win)
+            if dst.startswith("std::collections::BTreeMap<") and len(args) == 1:
+                arr = args[0]
+                while arr[0] == "ref":
+                    arr = self.load_ptr(st, arr[1])
+                if arr[0] == "op" and arr[1] == "array" and all(x[0] == "tup" and len(x[1]) == 2 for x in arr[2]):
+                    cur = ("call", "std::collections::BTreeMap::<K, V>::new", ())
+                    for x in arr[2]:
+                        cur = ("op", "insert", (cur, x[1][0], x[1][1]))
+                    return [(st, cur)]
             return None
         if tr == "std::future::IntoFuture" and nm == "into_future":
             return [(st, args[0])]
@@ -893,6 +913,52 @@ class Interp:
                 return [(st, self.mk(O, "None"))]
             return None
         # Option / Result combinators
+        if p.startswith("std::option::Option::<") and nm in ("get_or_insert_with", "get_or_insert") and len(args) == 2 and args[0][0] == "ref":
+            # `opt.get_or_insert_with(f)`: if opt is None it becomes Some(f()); a reference to the content is returned
+            out = []
+            cur = self.load_ptr(st, args[0][1])
+            for s2, var, pl in self.cases(st, cur, O):
+                if var == "Some":
+                    out.append((s2, ("ref", s2.alloc(pl[0]))))
+                else:
+                    vals = self.apply(s2, args[1], [], depth + 1, stack) if nm == "get_or_insert_with" else [(s2, args[1])]
+                    for s3, val in vals:
+                        self.store_ptr(s3, args[0][1], self.mk(O, "Some", val))
+                        out.append((s3, ("ref", s3.alloc(val))))
+            return out
+        if p.startswith("std::collections::btree_map::Entry::<") and nm in ("or_insert_with", "or_insert", "or_default") and args and args[0][0] == "call" \
+                and short_name(args[0][1]).endswith("BTreeMap::entry") and getattr(self, "entry_places", {}).get(args[0]) is not None:
+            # `map.entry(k).or_insert_with(f)`: if !map.contains_key(k) { map.insert(k, f()) }
+            mptr, key = self.entry_places[args[0]]
+            rm = self.resolve(st, self.load_ptr(st, mptr))
+            test = ("call", "std::collections::BTreeMap::<K, V, A>::contains_key", (rm, self.resolve(st, key)))
+            out = []
+            s_has = st.fork()
+            s_has.conds.append((test, "val", "not:0"))
+            out.append((s_has, ("sym", "entry_value")))
+            s_new = st.fork()
+            s_new.conds.append((test, "val", 0))
+            if nm == "or_insert_with":
+                vals = self.apply(s_new, args[1], [], depth + 1, stack)
+            elif nm == "or_insert":
+                vals = [(s_new, args[1])]
+            else:
+                vals = [(s_new, ("call", "Default::default", ()))]
+            for s3, val in vals:
+                old = self.load_ptr(s3, mptr)
+                s3.events.append(("call", "std::collections::BTreeMap::<K, V, A>::insert", (self.resolve(s3, old), self.resolve(s3, key), self.resolve(s3, val))))
+                self.store_ptr(s3, mptr, ("op", "insert", (old, key, val)))
+                out.append((s3, ("ref", s3.alloc(val))))
+            return out
+        if p.startswith("std::collections::BTreeMap::<") and nm == "entry" and len(args) == 2 and args[0][0] == "ref":
+            # remember which map place an entry belongs to (used when the entry is consumed by or_insert_with)
+            rargs = tuple(self.resolve(st, a) for a in args)
+            term = ("call", name if not self.tsub else self.subst(name), rargs)
+            st.events.append(("call", term[1], rargs))
+            if not hasattr(self, "entry_places"):
+                self.entry_places = {}
+            self.entry_places[term] = (args[0][1], args[1])
+            return [(st, term)]
         if p.startswith("std::option::Option::<"):
             v = args[0]
             if nm in ("map", "ok_or", "ok_or_else", "unwrap_or", "cloned", "copied", "and_then", "unwrap_or_else", "is_some", "is_none", "map_or", "unwrap_or_default", "take", "as_ref", "as_deref", "filter"):
@@ -998,6 +1064,8 @@ class Interp:
                     return [(st, ("tup", ()))]
                 return [(st, ("call", name + "->old", rargs))]
         # iteration (bounded unrolling): into_iter / iter -> ('itersrc', x); next -> fork
+        if tr == "std::iter::IntoIterator" and nm == "into_iter" and (fn.get("resolved") or "") == "<I as std::iter::IntoIterator>::into_iter":
+            return [(st, args[0])]      # the blanket impl for iterators: `for x in iterator` iterates that iterator
         if (tr == "std::iter::IntoIterator" and nm == "into_iter") or (nm in ("iter", "iter_mut", "into_iter", "chars", "lines", "enumerate") and not fn.get("resolved_local") and False):
             return [(st, ("op", "into_iter", (self.resolve(st, args[0]),)))]
         if tr == "std::iter::Iterator" and nm == "next" and not fn.get("resolved_local"):
